@@ -8,6 +8,8 @@ import (
 	"sync/atomic"
 	"time"
 
+	predis "github.com/samaritan-proxy/samaritan/pb/config/protocol/redis"
+
 	"verif/internal/ev"
 	"verif/internal/fakecluster"
 	"verif/internal/rclient"
@@ -356,6 +358,7 @@ func c02(r *ev.Run) {
 	r.Sample(map[string]interface{}{"script": c02Script{Hook: c02Hooks[2], Fault: "reset-conn", Class: "simple"}, "steps": "warm-up; node silent; arm park; send GET; wait parked; reset backend connection; wait until the node sees it closed; release; expect a reply within the progress-relative deadline"})
 	c02FullQueue(r, e)
 	e.stop()
+	c02FilteredAfterPending(r)
 	c02Stress(r)
 	r.Require("scripts_that_reached_their_pause_point", 30)
 	r.Require("outcome:answered", 60)
@@ -617,5 +620,75 @@ func c02Stress(r *ev.Run) {
 		r.Set("hook_hits_"+label, hits)
 		s.Close()
 		cl.Close()
+	}
+}
+
+// c02FilteredAfterPending: with compression enabled, a request that the filter chain answers itself (a banned command)
+// follows a forwarded request on the same backend connection. The forwarded request must still reach the backend and be answered
+// without any further traffic.
+func c02FilteredAfterPending(r *ev.Run) {
+	s, err := startSUT(r, false, 600000, 20)
+	if err != nil {
+		r.Internal("start sut: %v", err)
+		return
+	}
+	defer s.Close()
+	cl, err := fakecluster.New(2, 0)
+	if err != nil {
+		r.Internal("fakecluster: %v", err)
+		return
+	}
+	defer cl.Close()
+	cl.AssignContiguous()
+	cl.LogArgs = false
+	svc, err := startRedisSvc(s, cl, cl.Addrs(), RedisOpts{Compression: &predis.Compression{Enable: true, Algorithm: predis.Compression_SNAPPY, Threshold: 64}})
+	if err != nil || !svc.WaitRouting(1, 10*time.Second) {
+		r.Internal("service did not start: %v", err)
+		return
+	}
+	ka := keysFor(cl, cl.Nodes[0], 10, "fk")
+	reps := 6
+	if r.Tier == "thorough" {
+		reps = 40
+	}
+	for rep := 0; rep < reps; rep++ {
+		conn, err := svc.Dial()
+		if err != nil {
+			r.Internal("dial: %v", err)
+			return
+		}
+		conn.DoS(5*time.Second, "SET", ka[0], "warm")
+		// hold the backend writer right after it dequeued the first request, until the second one is queued behind it
+		s.HookArm("redis.client.write.after_dequeue", sutc.HookAction{Mode: "park", Times: 1})
+		banned := []string{"APPEND", "SETRANGE", "GETBIT"}[rep%3]
+		conn.C.Write(append(resp.CmdS("GET", ka[1+rep%8]), resp.CmdS(banned, ka[1+rep%8], "1", "x")...))
+		parked := s.WaitParked("redis.client.write.after_dequeue", 1, 2*time.Second)
+		time.Sleep(30 * time.Millisecond)
+		s.HookRelease("redis.client.write.after_dequeue")
+		if !parked {
+			r.Inconclusive("filtered-after-pending-not-parked")
+			conn.Close()
+			continue
+		}
+		v1, err1 := conn.Read(3 * time.Second)
+		if err1 == nil {
+			v2, err2 := conn.Read(3 * time.Second)
+			if err2 != nil || v2.Kind != resp.Error {
+				r.Violation("C02:filtered-request-reply", "the banned command behind a forwarded request did not get its error reply", map[string]interface{}{"first": v1.String(), "second": v2.String()})
+			}
+			r.Count("filtered_after_pending_answered", 1)
+		} else if rclient.IsTimeout(err1) {
+			// nothing else talks to that backend: is the request merely sitting in the proxy's write buffer?
+			c2, _ := svc.Dial()
+			c2.DoS(5*time.Second, "SET", ka[9], "nudge")
+			c2.Close()
+			_, errAfter := conn.Read(3 * time.Second)
+			r.Violation("C02:unflushed-behind-filtered-request", "a forwarded request followed by a request that the compression filter answers itself was not answered within 3 s of idle time",
+				map[string]interface{}{"pipeline": []string{"GET " + ka[1+rep%8], banned + " ..."}, "answered_after_unrelated_request_to_same_backend": errAfter == nil, "repetition": rep})
+		} else {
+			r.Inconclusive("filtered-after-pending-conn-error")
+		}
+		conn.Close()
+		r.Case("script/filtered-after-pending/" + banned)
 	}
 }
